@@ -88,6 +88,8 @@ type sess struct {
 	name string
 	peer wamp.Peer
 	log  []interface{}
+	dead bool          // a message that had to arrive did not: do not wait again
+	evs  []interface{} // meta scenario: EVENTs, compared as a multiset
 }
 
 type idAliases struct {
@@ -111,6 +113,13 @@ type world struct {
 	cleanup []func()
 	connect func() (wamp.Peer, error)
 	al      *idAliases
+}
+
+// connectLocal attaches an in-process helper session (never the one under test).
+func (w *world) connectLocal() wamp.Peer {
+	c, rEnd := transport.LinkedPeers()
+	go func() { _ = w.r.Attach(rEnd) }()
+	return c
 }
 
 func newWorld(transportName, serName string) (*world, error) {
@@ -137,8 +146,15 @@ func newWorld(transportName, serName string) (*world, error) {
 			defer cancel()
 			return transport.ConnectRawSocketPeer(ctx, "unix", path, serialization(serName), nil, nullLog, 0)
 		}
-	case "websocket":
+	case "websocket", "websocket-ka":
+		// -ka: both ends run the keep-alive sender loop (interval one hour: no
+		// ping is due during a scenario)
+		var keep time.Duration
+		if transportName == "websocket-ka" {
+			keep = time.Hour
+		}
 		srv := router.NewWebsocketServer(w.r)
+		srv.KeepAlive = keep
 		l := newMemListener()
 		hs := &http.Server{Handler: srv}
 		go hs.Serve(l) //nolint:errcheck
@@ -147,7 +163,7 @@ func newWorld(transportName, serName string) (*world, error) {
 			ctx, cancel := context.WithTimeout(context.Background(), 5*time.Second)
 			defer cancel()
 			return transport.ConnectWebsocketPeer(ctx, "ws://verif.mem/ws", serialization(serName), nil, nullLog,
-				&transport.WebsocketConfig{Dial: l.Dial})
+				&transport.WebsocketConfig{Dial: l.Dial, KeepAlive: keep})
 		}
 	default:
 		return nil, fmt.Errorf("unknown transport %s", transportName)
@@ -219,17 +235,96 @@ func (w *world) observe(m wamp.Message) []interface{} {
 
 // expect receives one message and logs its observation.
 func (w *world) expect(s *sess) wamp.Message {
-	m, why := s.recvOne(4 * time.Second)
-	if m == nil {
-		s.note("<" + why + ">")
-		return nil
+	for {
+		if s.dead {
+			s.note("<nothing>")
+			return nil
+		}
+		m, why := s.recvOne(4 * time.Second)
+		if m == nil {
+			s.note("<" + why + ">")
+			s.dead = true
+			return nil
+		}
+		// a message carrying a value no codec can encode only ever reaches an
+		// in-process session (nothing is serialized on the way); over a
+		// network transport it is dropped as a whole.  It is left out of the
+		// observation so that the two can be compared.
+		if carriesUnserialisable(m) {
+			continue
+		}
+		s.log = append(s.log, w.observe(m))
+		return m
 	}
-	s.log = append(s.log, w.observe(m))
-	return m
+}
+
+func hasComplex(v interface{}) bool {
+	if v == nil {
+		return false
+	}
+	rv := reflect.ValueOf(v)
+	switch rv.Kind() {
+	case reflect.Complex64, reflect.Complex128:
+		return true
+	case reflect.Slice, reflect.Array:
+		for i := 0; i < rv.Len(); i++ {
+			if hasComplex(rv.Index(i).Interface()) {
+				return true
+			}
+		}
+	case reflect.Map:
+		for _, k := range rv.MapKeys() {
+			if hasComplex(rv.MapIndex(k).Interface()) {
+				return true
+			}
+		}
+	case reflect.Ptr, reflect.Interface:
+		if !rv.IsNil() {
+			return hasComplex(rv.Elem().Interface())
+		}
+	}
+	return false
+}
+
+func carriesUnserialisable(m wamp.Message) bool {
+	switch x := m.(type) {
+	case *wamp.Event:
+		return hasComplex(x.Arguments) || hasComplex(x.ArgumentsKw)
+	case *wamp.Invocation:
+		return hasComplex(x.Arguments) || hasComplex(x.ArgumentsKw)
+	case *wamp.Result:
+		return hasComplex(x.Arguments) || hasComplex(x.ArgumentsKw)
+	}
+	return false
+}
+
+// unserialisable: a payload with a complex number somewhere inside
+func unserialisablePayload() wamp.List {
+	bad := interface{}(complex(1, 2))
+	if payloadSeed == 0 {
+		return wamp.List{"bad", wamp.Dict{"deep": wamp.List{1, bad}}}
+	}
+	g := &pgen{s: payloadSeed ^ 0x5bd1e995}
+	var v interface{} = bad
+	for d := int(g.next() % 3); d > 0; d-- {
+		if g.next()%2 == 0 {
+			v = wamp.List{g.value(2), v}
+		} else {
+			v = wamp.Dict{"in": v, "o": g.value(2)}
+		}
+	}
+	return wamp.List{g.value(1), v}
 }
 
 func (w *world) silent(s *sess) {
+	if s.dead {
+		s.note("<nothing>")
+		return
+	}
 	m, why := s.recvOne(80 * time.Millisecond)
+	for m != nil && carriesUnserialisable(m) {
+		m, why = s.recvOne(80 * time.Millisecond)
+	}
 	if why == "timeout" {
 		s.note("<silent>")
 		return
@@ -360,6 +455,30 @@ func kindScenario(id string, a []string) {
 	send(B, &wamp.Publish{Request: 3, Options: wamp.Dict{"acknowledge": true}, Topic: "verif.topic", Arguments: payloadArgs(), ArgumentsKw: payloadKw()})
 	w.expect(B)
 	w.expect(A)
+	// messages no codec can encode are dropped as a whole and the following
+	// ones still arrive, in order: (1) from an in-process publisher, so that
+	// the router-side sender of A's transport meets them; (2) from B itself,
+	// so that B's own sender does
+	L := &sess{name: "L", peer: w.connectLocal()}
+	send(L, helloMsg())
+	if m, _ := L.recvOne(4 * time.Second); m == nil {
+		A.note("<helper session did not join>")
+	}
+	nBad := 1
+	if payloadSeed != 0 {
+		nBad = 1 + int(payloadSeed%3)
+	}
+	for i := 0; i < nBad; i++ {
+		send(L, &wamp.Publish{Request: wamp.ID(100 + i), Options: wamp.Dict{}, Topic: "verif.topic", Arguments: unserialisablePayload()})
+		send(L, &wamp.Publish{Request: wamp.ID(200 + i), Options: wamp.Dict{}, Topic: "verif.topic", Arguments: wamp.List{"after", i}})
+	}
+	for i := 0; i < nBad; i++ {
+		w.expect(A)
+	}
+	send(B, &wamp.Publish{Request: 20, Options: wamp.Dict{}, Topic: "verif.topic", Arguments: unserialisablePayload()})
+	send(B, &wamp.Publish{Request: 21, Options: wamp.Dict{"acknowledge": true}, Topic: "verif.topic", Arguments: wamp.List{"after-own"}})
+	w.expect(B)
+	w.expect(A)
 	// call / invocation / yield / result
 	send(B, &wamp.Call{Request: 4, Options: wamp.Dict{}, Procedure: "verif.proc", Arguments: payloadArgs(), ArgumentsKw: payloadKw()})
 	if inv, ok := w.expect(A).(*wamp.Invocation); ok {
@@ -403,11 +522,12 @@ func kindScenario(id string, a []string) {
 	w.silent(A)
 	// goodbye
 	send(A, &wamp.Goodbye{Reason: wamp.CloseRealm, Details: wamp.Dict{}})
-	w.expect(A)
+	w.leave(A)
 	send(B, &wamp.Goodbye{Reason: wamp.CloseRealm, Details: wamp.Dict{}})
-	w.expect(B)
+	w.leave(B)
 	A.peer.Close()
 	B.peer.Close()
+	L.peer.Close()
 
 	obs := map[string]interface{}{"A": A.log, "B": B.log}
 	js, _ := json.Marshal(obs)
